@@ -930,6 +930,9 @@ def main(tier, seed, log=print):
                     rr = run_case_iso(cc, want_trace=False)
                     if rr["outcome"] == "violation":
                         viols.append({"index": idx, "vclass": rr["vclass"], "detail": rr.get("detail"), "case": cc})
+                    elif rr["outcome"] == "skip" and rr.get("serial_exc") == "crash" and new_violations:
+                        log("[C07] INFO: the SERIAL twin crashes the process on generated case %s/%d (memory damage by the code under test, not a schedule "
+                            "dependence); the violations found so far are reported" % (layer, idx))
                     elif rr["outcome"] == "skip" and rr.get("serial_exc") == "crash":
                         raise core.HarnessError("the SERIAL twin crashes the process on generated case %s/%d (%s): not a C07 matter, but the check cannot continue: %s"
                                                 % (layer, idx, json.dumps(cc)[:400], rr.get("detail")))
@@ -1072,7 +1075,18 @@ def _save_confirmed(layer, seed, v, small, log):
     if rc == 1:
         log("[C07] %s reproduces only inside its batch: the batch is the replay unit" % name)
         return path
-    raise core.HarnessError("python replay does not reproduce in a fresh process, minimised, as found or as a batch: %s\n%s" % (path, out + out2))
+    # The unchanged tree is deterministic (self-test), so a mismatch that a batch worker observed between the serial and the parallel
+    # result of one call, and that no fresh process shows again, means the code under test itself behaves nondeterministically
+    # (typically: it depends on the addresses the allocator hands out).  The observation is reported as it was seen; its replay
+    # file re-tries the case and the batch.
+    cand = dict(v["case"])
+    cand.update({"property": PROP, "violation": v["vclass"], "signature": small["signature"], "detail": v.get("detail"), "nondeterministic": 40,
+                 "batch_of_observation": [seed, frm, per], "case_in_batch": v["index"],
+                 "note": "observed by a batch worker (serial vs parallel result of this call differed); not reproduced in fresh processes: "
+                         "the code under test depends on process state such as allocator addresses; replay re-tries"})
+    path = core.save_replay(PROP, name + "-nondeterministic", cand)
+    log("[C07] %s was observed once but does not reproduce in fresh processes (nondeterministic code under test): %s" % (name, path))
+    return path
 
 
 def replay(path, log=print):
